@@ -358,3 +358,20 @@ Definition free_spec_code (s s' : cstate) (v n : nat) (d : direction) : Z :=
       end
     end
   end.
+
+(* ---- the premises of one step of theorem C06_sequence_equiv, evaluated by the interpreter before every conversion --- *)
+Definition step_ok (s : cstate) (v : nat) (d : direction) : bool :=
+  premises_hold s && Nat.ltb v (length (cvars s)) &&
+  match d with
+  | DOutput => true
+  | DInput =>
+      negb (match free_var s with Some t => Nat.eqb t v | None => false end) &&
+      match ode_def s v with
+      | None => true
+      | Some ode => match q_lhs ode with
+                    | CLD _ t => Nat.leb t (length (cvars s)) && (match var_def s v with None => true | Some _ => false end)
+                    | CLV _ => false
+                    end
+      end
+  end.
+
